@@ -16,6 +16,10 @@ import (
 const svTop = ons.Name("a.ol")
 const svSub = ons.Name("x.a.ol")
 
+// svBystander: somebody else's name whose text ends with that of a.ol without
+// being its sub-domain.
+const svBystander = ons.Name("ba.ol")
+
 type svDomainPre struct {
 	present, subPresent bool
 	owner, benef        int
@@ -31,6 +35,14 @@ type svDomainPre struct {
 func svPreONS(pre *svDomainPre) func(e *svEnv) {
 	return func(e *svEnv) {
 		ds := e.app.Context.domains.WithState(e.app.Context.deliver)
+		// the bystander ba.ol belongs to the last party and is never named by a transaction
+		by, err := ons.NewDomain(svParty_(e.n-1).Addr, svParty_(e.n-1).Addr, string(svBystander), 1, "", 1<<39, true)
+		if err != nil {
+			sv.Unreachable("bystander setup")
+		}
+		if err := ds.Set(by); err != nil {
+			sv.Unreachable("bystander store")
+		}
 		pre.present = sv.Choice("domain.present", 2) == 0
 		if !pre.present {
 			return
@@ -120,9 +132,9 @@ func svGetDomain(e *svEnv, n ons.Name) *ons.Domain {
 
 // SV_C20_ons_step: one ONS transaction of any kind from the symbolic registry.
 //
-// sv:bounds names {a.ol, x.a.ol}; a.ol absent or present with arbitrary owner/beneficiary among 2 (quick) / 3 (thorough) parties, expiry (0..2^40), sale flag and price, active flag; x.a.ol absent or present (owned by a.ol's owner); kind any of create/update/sell/purchase/send/renew/delete-sub; actor (owner/buyer/sender field, who signs) any party; amounts any integer in {OLT, unregistered} (quick) / any of the 4 currency names (thorough); balances arbitrary (< 2^100 nue); ONS options of the devnet genesis (base price 10^21, per-block 10^14); mempool-admitted regime; block height 20, committed version 2
+// sv:bounds names {a.ol, x.a.ol} plus a bystander ba.ol (owned by the last party, never named by the transaction; its text ends with a.ol); a.ol absent or present with arbitrary owner/beneficiary among 2 (quick) / 3 (thorough) parties, expiry (0..2^40), sale flag and price, active flag; x.a.ol absent or present (owned by a.ol's owner); kind any of create/update/sell/purchase/send/renew/delete-sub; actor (owner/buyer/sender field, who signs) any party; amounts any integer in {OLT, unregistered} (quick) / any of the 4 currency names (thorough); balances arbitrary (< 2^100 nue); ONS options of the devnet genesis (base price 10^21, per-block 10^14); mempool-admitted regime; block height 20, committed version 2
 // sv:outside domain-name syntax beyond the two names; option changes; histories (one step)
-// sv:goal owner, beneficiary, sale status/price, active flag, expiry and the sub-domain of a.ol change only if the actor is its current owner, or through a purchase; a purchase of a name on sale and not expired debits the buyer by at least the asking price and credits the previous owner exactly the asking price; a purchase of an expired name pays at least the base price into the fee pool; create only succeeds for a name without a record, and sets expiry = version + floor((price - base)/perBlock) (a sub-name: its parent's expiry); renew extends the expiry by exactly floor(price/perBlock); the sub-name's expiry follows its parent's on renew
+// sv:goal the bystander record never changes; owner, beneficiary, sale status/price, active flag, expiry and the sub-domain of a.ol change only if the actor is its current owner, or through a purchase; a purchase of a name on sale and not expired debits the buyer by at least the asking price and credits the previous owner exactly the asking price; a purchase of an expired name pays at least the base price into the fee pool; create only succeeds for a name without a record, and sets expiry = version + floor((price - base)/perBlock) (a sub-name: its parent's expiry); renew extends the expiry by exactly floor(price/perBlock); the sub-name's expiry follows its parent's on renew
 func SV_C20_ons_step() {
 	pre := &svDomainPre{}
 	n := 3
@@ -138,10 +150,11 @@ func SV_C20_ons_step() {
 	kind := sv.Choice("kind", 7)
 	raw, signers := svBuildONS(e, kind)
 	actor := signers[0]
-	top0, sub0 := svGetDomain(e, svTop), svGetDomain(e, svSub)
+	top0, sub0, by0 := svGetDomain(e, svTop), svGetDomain(e, svSub), svGetDomain(e, svBystander)
 	version := e.app.Context.deliver.Version()
 	r := e.step(raw, signers, true)
-	top1, sub1 := svGetDomain(e, svTop), svGetDomain(e, svSub)
+	top1, sub1, by1 := svGetDomain(e, svTop), svGetDomain(e, svSub), svGetDomain(e, svBystander)
+	sv.Assert(by0 != nil && svDomainsEqual(by0, by1), "a-name-that-no-transaction-names-is-untouched")
 	ok := r.resp.Code == 0
 	base, _ := new(big.Int).SetString("1000000000000000000000", 10)
 	perBlock := big.NewInt(100000000000000)
